@@ -416,12 +416,12 @@ fn scenarios(tier: Tier) -> Vec<Scenario> {
     let shape = Shape { coins: 3, messages: 3, contracts: vec![ContractShape { slots: 3, balances: 3 }], blobs: 3, processed_txs: 3, height: 2 };
     let mut v = vec![
         Scenario { shape: shape.clone(), encoding: Encoding::Parquet { group_size: Some(1) } },
-        Scenario { shape: shape.clone(), encoding: Encoding::Json { read_group_size: Some(1) } },
+        Scenario { shape: shape.clone(), encoding: Encoding::Json { write_group_size: None, read_group_size: Some(1) } },
     ];
     if tier == Tier::Thorough {
         let big = Shape { coins: 6, messages: 5, contracts: vec![ContractShape { slots: 4, balances: 3 }, ContractShape { slots: 2, balances: 3 }], blobs: 3, processed_txs: 5, height: 4 };
         v.push(Scenario { shape: big.clone(), encoding: Encoding::Parquet { group_size: Some(2) } });
-        v.push(Scenario { shape: big, encoding: Encoding::Json { read_group_size: Some(2) } });
+        v.push(Scenario { shape: big, encoding: Encoding::Json { write_group_size: None, read_group_size: Some(2) } });
     }
     v
 }
